@@ -225,6 +225,7 @@ def run_group(g, logdir):
     os.makedirs(logdir, exist_ok=True)
     if g.pre:
         g.pre()
+    ensure_includes()
     ensure_playback_stubs({playback_file(g, h) for h in g.harnesses})
     results = {h.full: Result(h) for h in g.harnesses}
     if not g.harnesses:
@@ -351,30 +352,32 @@ def replay(g, h, prop, logdir):
     text = out.stdout + out.stderr
     with open(os.path.join(logdir, f"replay_{h.name}.log"), "w") as f:
         f.write(text)
-    m = RE_TEST.search(text)
-    if not m:
+    blocks = RE_TEST.findall(text)
+    # Kani prints one unit test per failed check *and* per satisfied cover; keep the failures
+    blocks = [b for b in blocks if "kani_concrete_playback" in b and "Check for `cover`" not in b]
+    if not blocks:
         with open(path, "w") as f:
-            f.write("// Kani produced no concrete playback test for this failure.\n" + text[-4000:])
+            f.write("// Kani produced no concrete playback test for this failure.\n//" +
+                    text[-3000:].replace("\n", "\n// "))
         return None, path
-    test_src = m.group(1)
+    test_src = "\n".join(blocks)
     with open(path, "w") as f:
         f.write(f"// counterexample for property {prop}, harness {h.full}\n"
-                f"// replay: cd {g.cwd} && (see /verif/check {prop} --replay {path})\n")
+                f"// replay: /verif/check {prop} --replay {path}\n")
         f.write(test_src)
     ok = run_playback(g, h, test_src, logdir)
     return ok, path
 
 
 def playback_file(g, h):
-    return os.path.join(GEN, "playback", g.target + "__" + h.module.replace("::", "__") + ".rs")
+    return os.path.join(GEN, "playback", (g.package or g.target) + "__" + h.module.replace("::", "__") + ".rs")
 
 
 def run_playback(g, h, test_src, logdir):
     """Returns True when the native test FAILS (i.e. the violation reproduces)."""
-    mt = re.search(r"fn (kani_concrete_playback_\w+)", test_src)
-    if not mt:
+    if not re.search(r"fn (kani_concrete_playback_\w+)", test_src):
         return None
-    tname = mt.group(1)
+    tname = "kani_concrete_playback_" + h.name
     pf = playback_file(g, h)
     os.makedirs(os.path.dirname(pf), exist_ok=True)
     reproduced = None
@@ -393,7 +396,7 @@ def run_playback(g, h, test_src, logdir):
             cmd = ["cargo", "kani", "playback", "-Z", "concrete-playback"]
             if g.package:
                 cmd += ["-p", g.package]
-            cmd += ["--", tname]
+            cmd += ["--lib", "--", tname]
             out = subprocess.run(cmd, cwd=g.cwd, env=env, capture_output=True, text=True,
                                  errors="replace")
             text = out.stdout + out.stderr
@@ -408,6 +411,22 @@ def run_playback(g, h, test_src, logdir):
         with open(pf, "w") as f:
             f.write("")
     return reproduced
+
+
+# include! targets referenced by the in-crate harness modules; they must exist (possibly empty)
+# for the crate to compile under cfg(kani), whichever property is being checked.
+INCLUDES = [
+    "swimos_runtime__timeout_coord.rs",
+    "playback/swimos_runtime__timeout_coord__verif_kani.rs",
+]
+
+
+def ensure_includes():
+    for rel in INCLUDES:
+        p = os.path.join(GEN, rel)
+        os.makedirs(os.path.dirname(p), exist_ok=True)
+        if not os.path.exists(p):
+            open(p, "w").close()
 
 
 def ensure_playback_stubs(paths):
